@@ -11,7 +11,8 @@ PROP = {
   "saml2_tophat.response:StatusResponse._loads",
   "saml2_tophat.sigver:SecurityContext.correctly_signed_response",
   "saml2_tophat.sigver:SecurityContext.check_signature",
-  "saml2_tophat.response:AuthnResponse._assertion"
+  "saml2_tophat.response:AuthnResponse._assertion",
+  "saml2_tophat.sigver:SecurityContext.decrypt"
  ],
  "level": "proof",
  "id": "C20"
